@@ -82,3 +82,43 @@ def _ext_hook(E, st, full, args, kwargs):
 
 
 R.ext_hook = _ext_hook
+
+# ---------------------------------------------------------------- C11 / C17: a style passed for one call does not stay
+# AnsiFormatter.format(string, style) pushes the converted style on pastel's style stack for the duration of the call.
+# Ghost model of the external stack: its depth.  The contract: the depth after a normal return is the depth before --
+# whatever was pushed for this call has been popped, so the next format() of anything renders as if this call had not
+# happened (with C17: rendering twice gives the same output; with C11: the per-call style affects that call only).
+M_ANSI = "clikit.formatter.ansi_formatter"
+R.shape("PastelStack", external=True, g_depth="int")
+R.shape("PastelRegex", external=True)
+R.shape("PastelMatch", external=True)
+R.shape("Pastel", external=True, _style_stack="ref PastelStack", FULL_TAG_REGEX="ref PastelRegex")
+R.shape("AnsiFormatter", base="Formatter", _formatter="ref Pastel", _forced="bool")
+R.contract("pastel.stack:PastelStack.push", params={"style": "ref PastelStyle"},
+           ensures=["self.g_depth == old(self.g_depth) + 1"], modifies=["self.g_depth"], assumed=True,
+           note="pastel.stack.StyleStack.push appends one style")
+R.contract("pastel.stack:PastelStack.pop", params={}, returns="ref PastelStyle",
+           ensures=["self.g_depth == old(self.g_depth) - 1"], modifies=["self.g_depth"], assumed=True,
+           note="pastel.stack.StyleStack.pop() without argument removes the top style")
+R.contract("pastel.pastel:PastelRegex.search", params={"string": "str"}, returns="none|ref PastelMatch", modifies=[],
+           assumed=True, note="re.Pattern.search: a match object or None, no side effect")
+R.contract("pastel.pastel:Pastel.colorize", params={"message": "str"}, returns="str", raises={"ValueError": "True"},
+           modifies=[], assumed=True,
+           note="pastel's colorize pushes and pops its own tags in pairs and leaves the stack as it found it; it raises "
+                "ValueError for badly nested tags")
+R.contract("pastel.pastel:Pastel._apply_current_style", params={"text": "str"}, returns="str", modifies=[], assumed=True,
+           note="reads the top of the style stack")
+ANSI_FORMAT = M_ANSI + ":AnsiFormatter.format"
+DEPTH = "self._formatter._style_stack.g_depth"
+c = R.contract(
+    ANSI_FORMAT, variant="stack",
+    params={"string": "str", "style": "ref Style?"},
+    returns="str",
+    ensures=["%s == old(%s)" % (DEPTH, DEPTH)],
+    raises={"ValueError": "True"},
+    modifies=[DEPTH],
+    note="(on ValueError -- badly nested tags in the text -- the style pushed for the call is not popped by the current "
+         "code either; the property speaks of successful renderings)",
+)
+c.defaults = {"style": None}
+ANSI_FORMAT_STACK = {"qual": ANSI_FORMAT, "tag": "stack"}
